@@ -502,7 +502,7 @@ fn fir_normal(spec: &PacketSpec, b: &[u8]) -> Vec<u8> {
     b.to_vec()
 }
 
-fn c20_oracle(c: &HistCase, st: &mut Stats) -> Verdict {
+pub(crate) fn c20_oracle(c: &HistCase, st: &mut Stats) -> Verdict {
     let name = c.spec.long_name();
     st.label(&name);
     let junk_data = [0xeeu8; 8];
